@@ -837,9 +837,43 @@ func (w *World) callText(fn *ssa.Function, pos token.Pos) string {
 	if !ok {
 		m = map[token.Pos]string{}
 		if syn := fn.Syntax(); syn != nil {
+			var pkg *packages.Package
+			if fn.Pkg != nil {
+				pkg = w.allPkgs[fn.Pkg.Pkg.Path()]
+			}
 			ast.Inspect(syn, func(n ast.Node) bool {
 				if ce, ok := n.(*ast.CallExpr); ok {
-					m[ce.Lparen] = w.nodeText(ce)
+					txt := w.nodeText(ce)
+					// what a helper called in the argument list builds belongs to this call's text as well (an attribute
+					// literal moved into a constructor function)
+					for _, a := range ce.Args {
+						ast.Inspect(a, func(k ast.Node) bool {
+							ic, ok := k.(*ast.CallExpr)
+							if !ok || pkg == nil || pkg.TypesInfo == nil {
+								return true
+							}
+							var obj types.Object
+							switch f := ic.Fun.(type) {
+							case *ast.Ident:
+								obj = pkg.TypesInfo.Uses[f]
+							case *ast.SelectorExpr:
+								if sel, ok := pkg.TypesInfo.Selections[f]; ok {
+									obj = sel.Obj()
+								} else {
+									obj = pkg.TypesInfo.Uses[f.Sel]
+								}
+							}
+							if fo, ok := obj.(*types.Func); ok {
+								if callee := w.prog.FuncValue(fo); callee != nil && callee.Blocks != nil && w.isRepoPkg(pkgOf(callee)) && callee.Syntax() != nil {
+									if fc := w.contracts[fnKey(callee)]; fc == nil || fc.Flags["inline"] {
+										txt += " /*" + fnKey(callee) + "*/ " + w.nodeText(callee.Syntax())
+									}
+								}
+							}
+							return true
+						})
+					}
+					m[ce.Lparen] = txt
 				}
 				return true
 			})
